@@ -8,7 +8,7 @@ ORACLE = "independent mailbox rules oracle anchored to published perft counts at
 CHECKS = {
     "C01": dict(
         technique="property-based differential testing against an independent rules oracle (proptest + exhaustive enumeration of K+X v K)",
-        text="Generated-input search: weechess's legal move list (all attributes) and perft totals/divides are compared with an independent rules oracle on millions of generated legal positions (random weighted play from 45 adversarial starts, constructive builder, complete K+X v K families) and through the CLI. Exploration, not proof: it shows agreement on everything generated.",
+        text="Generated-input search: weechess's legal move list (all attributes) and perft totals/divides are compared with an independent rules oracle on millions of generated legal positions (random weighted play from 45 adversarial starts, constructive builder, complete K+X v K families) and through the CLI; perft depth per position from a node budget (1-7 plies, sparse positions deepest). Exploration, not proof: it shows agreement on everything generated.",
         note=ORACLE + "; positions handed over through Board::from/State::new; perft depth 0 not asserted",
         ref="DESIGN.md 6 C01",
     ),
@@ -74,7 +74,7 @@ CHECKS = {
     ),
     "C04": dict(
         technique="property-based testing with a deterministic node clock (cancellation instant and overrun measured in nodes through a cfg hook) plus generated Stop/drop scripts against the real thread wrapper under a watchdog",
-        text="Generated-input search: roots incl. terminal and low-mobility positions, depth none/small/huge, 1-32 scheduled workers, Stop raised by a node clock at generated instants: no panic, at most 5 x 10000 x workers nodes after Stop, terminal roots report nothing and return, returned artifact seeds the next search. Public Searcher::analyze driven by generated scripts (Stop now/after first event/after completion/twice, drop receiver): join() returns Ok within a 60 s watchdog while the sender is still held.",
+        text="Generated-input search: roots incl. terminal and low-mobility positions, depth none/small/huge, 1-32 scheduled workers, Stop raised by a node clock at generated instants, on fresh memory and after one or two complete searches (mostly of the same root) on the same memory: no panic, at most 20 x 10000 x workers nodes after the Stop request, terminal roots report nothing and return, returned artifact seeds the next search. Public Searcher::analyze driven by generated scripts (Stop now/after first event/after completion/twice, drop receiver): join() returns Ok within a 60 s watchdog while the sender is still held.",
         note="liveness decided in nodes on the synchronous path; wall-clock watchdog (>=100x typical) only for the thread/channel wrapper",
         ref="DESIGN.md 6 C04",
     ),
@@ -116,7 +116,7 @@ CHECKS = {
     ),
     "C07": dict(
         technique="stateful property-based testing at the process boundary: generated UCI command sequences with generated driver timings against a session model on the rules oracle",
-        text="Generated-input search: sessions over {uci, isready, ucinewgame, position, go depth/movetime/bare, stop, .state} with per-command timing actions and isready barriers, ended by quit or EOF, on book lines, tempo-losing lines, right-stripped placements, endgames, low-mobility and terminal positions: id/uciok order, one readyok per isready, exactly one legal bestmove per go in order, bestmove before the barrier after the next joining command, .state FEN equals the oracle's, exit status 0.",
+        text="Generated-input search: sessions over {uci, isready, ucinewgame, position, go depth/movetime/bare, stop, .state} with per-command timing actions and isready barriers, ended by quit or EOF, on book lines, tempo-losing lines, right-stripped placements, endgames, low-mobility and terminal positions: id/uciok order, one readyok per isready, exactly one legal bestmove per go in order, bestmove before the barrier after the next joining command, .state FEN equals the oracle's, exit status 0. Plus isready/uci during a running search answered before its bestmove, and go movetime 0-2499 followed by silence answered within movetime + 20 s.",
         note="command timing sampled, oracle independent of race outcomes; waits of 60 s are watchdogs",
         ref="DESIGN.md 6 C07",
     ),
